@@ -84,7 +84,8 @@ Proof. rewrite noq_list. intros H Hy. rewrite forallb_forall in H. apply (H y Hy
 Lemma noq_occ var x y : noq x = true -> In y (occ var x) -> noq y = true.
 Proof.
   intros Hx Hy. unfold occ in Hy.
-  destruct x as [|p|t l|k f|? ? ? ? ?|? ? ?|?]; try destruct Hy.
+  destruct x as [|p|t l|k f|? ? ? ? ?|? ? ?|?].
+  { destruct (v_nillable var); [destruct Hy as [<-|[]]; reflexivity|destruct Hy]. }
   all: destruct (v_tokens_factory var).
   all: try (destruct Hy as [<-|[]]; exact Hx).
   - destruct l as [|z l']; [destruct Hy|]. destruct z; try (destruct Hy as [<-|[]]; exact Hx).
@@ -128,9 +129,17 @@ Section Plain.
 
   Lemma plain_prim var t y : vshape c u ok t (v_format var) y -> plain_tree (e_prim var y) = true.
   Proof.
-    intros Hs. unfold RoundtripGen.e_prim. cbn [plain_tree forallb map nodup_by andb].
+    intros Hs. assert (Ene : nil_attr_e var y = []) by (destruct Hs; reflexivity).
+    unfold RoundtripGen.e_prim. rewrite Ene. cbn [plain_tree forallb map nodup_by andb].
     pose proof (plain_data t _ y Hs) as H. destruct (e_data (v_format var) y) as [|k1 r]; [reflexivity|].
     destruct k1 as [atoms|? ? ?]; [|destruct H]. destruct r; [exact H|destruct H].
+  Qed.
+
+  (* <f xsi:nil="true"/> *)
+  Lemma plain_nil var : plain_tree (e_prim var VNone) = true.
+  Proof.
+    unfold RoundtripGen.e_prim, nil_attr_e, RoundtripGen.e_data. cbn [RoundtripGen.e_atoms].
+    destruct (v_nillable var); reflexivity.
   Qed.
 
   Lemma plain_obj : forall n cl o qn, wfr cl -> fits n cl o = true -> noq o = true -> exact_classes u n cl o = true ->
@@ -168,15 +177,16 @@ Section Plain.
         assert (Hpairs : pairs cl fs m = emit1 fs tv).
         { rewrite (pairs_plain cl fs m Hwc Hnames), Hevars; [cbn [flat_map]; apply app_nil_r|].
           intros var Hv. rewrite Hevars in Hv. destruct Hv as [<-|[]].
-          split; [apply (wf_text_noseq tv Hwt)|left; apply (wf_text_nonil tv Hwt)]. }
+          apply (wf_text_noseq tv Hwt). }
         assert (Hkf : flat_map (fun vv => RoundtripGen.e_field c u (eobj n) (fst vv) (snd vv)) (pairs cl fs m)
                       = RoundtripGen.e_field c u (eobj n) tv (field_of fs tv)).
-        { rewrite Hpairs. unfold emit1. destruct (field_of fs tv); cbn [flat_map fst snd]; rewrite ?app_nil_r; reflexivity. }
+        { rewrite Hpairs. unfold emit1, EventGen.emit, RoundtripGen.e_field. rewrite (wf_text_nonil tv Hwt).
+        destruct (field_of fs tv); cbn [flat_map fst snd]; rewrite ?app_nil_r; reflexivity. }
         rewrite Hkf.
         destruct (wf_text_inv tv Hwt) as [Hkt _].
         destruct (text_field_shape c u ok fs tv Hwt Hft) as [[Ex _]|[[t [Ht [Hs _]]]|[q1 [_ [_ [Eq _]]]]]].
         3:{ pose proof (noq_field cl fs tv Hnq) as Hnv. rewrite Eq in Hnv. discriminate Hnv. }
-        * unfold RoundtripGen.e_field. rewrite Ex. reflexivity.
+        * unfold RoundtripGen.e_field. rewrite Ex, (wf_text_nonil tv Hwt). reflexivity.
         * assert (He : RoundtripGen.e_field c u (eobj n) tv (field_of fs tv) = e_data (v_format tv) (field_of fs tv)).
           { unfold RoundtripGen.e_field, RoundtripGen.e_items, RoundtripGen.e_wrap.
             rewrite Hkt, (wf_text_nowrap tv Hwt). inversion Hs; reflexivity. }
@@ -194,16 +204,21 @@ Section Plain.
             - apply (noq_item t0 l0 x); [rewrite <- El; apply (noq_field cl fs var Hnq)|exact Hil]. }
           assert (Hexy : forall kd y, v_clazz var = Some kd -> v_tokens_factory var = None -> In y (occ var x) ->
                     exact_classes u n kd y = true).
-          { intros kd y Hcl Htf Hy. cbn [exact_classes] in Hex. rewrite Hm in Hex. apply andb_true_iff in Hex as [_ Hex].
+          { intros kd y Hcl Htf Hy.
+            assert (Hnl : v_nillable var = false).
+            { destruct Hev as [Hw0 _].
+              destruct (wf_elem_inv var Hw0) as [_ [_ [[k0 [Hty0 _]]|[[t0 [_ [_ Hc0]]]|[_ [Hc0 _]]]]]];
+                [apply (wf_elem_nonil_class var k0 Hw0 Hty0)|congruence|congruence]. }
+            cbn [exact_classes] in Hex. rewrite Hm in Hex. apply andb_true_iff in Hex as [_ Hex].
             destruct Hev as [_ Hine]. rewrite forallb_forall in Hex. specialize (Hex _ Hine). cbn [snd forallb] in Hex.
             rewrite andb_true_r, Hcl in Hex.
             destruct (ps_src _ _ _ _ (class_pairs_fits c u ok _ _ cl fs m Hwc Hnames Hfe) (var, x) Hvv)
               as [_ [Hxn [Hw|[f0 [t0 [l0 [_ [_ [_ [El Hil]]]]]]]]]]; cbn [fst snd] in *.
             - unfold pair_whole in Hw. cbn [fst snd] in Hw. rewrite <- Hw in Hex.
-              unfold occ in Hy. rewrite Htf in Hy. destruct x as [| |tt l| | | |]; try destruct Hy as [<-|[]]; try exact Hex; try congruence.
+              unfold occ in Hy. rewrite Htf in Hy. destruct x as [| |tt l| | | |]; rewrite ?Hnl in Hy; try (now destruct Hy); try destruct Hy as [<-|[]]; try exact Hex; try congruence.
               rewrite forallb_forall in Hex. apply (Hex y Hy).
             - rewrite El in Hex. rewrite forallb_forall in Hex. specialize (Hex x Hil).
-              unfold occ in Hy. rewrite Htf in Hy. destruct x as [| |tt l| | | |]; try destruct Hy as [<-|[]]; try exact Hex; try congruence.
+              unfold occ in Hy. rewrite Htf in Hy. destruct x as [| |tt l| | | |]; rewrite ?Hnl in Hy; try (now destruct Hy); try destruct Hy as [<-|[]]; try exact Hex; try congruence.
               destruct n; discriminate Hex. }
           assert (Hitem : forall y, In y (occ var x) ->
                     (exists q a k, ienode c u ign n var y = EElem q a k) /\ plain_tree (ienode c u ign n var y) = true).
@@ -211,7 +226,11 @@ Section Plain.
             pose proof Hok0 as Hok.
             rewrite Forall_forall in Hok. specialize (Hok y Hy).
             pose proof Hev as [Hw Hin].
-            unfold item_ok in Hok. unfold ienode.
+            assert (Hcase : y = VNone \/ y <> VNone) by (destruct y; [left; reflexivity|right; discriminate..]).
+            destruct Hcase as [->|Hyn].
+            { assert (Ei : ienode c u ign n var VNone = e_prim var VNone) by (unfold ienode; destruct (v_tokens_factory var); reflexivity).
+              rewrite Ei. split; [unfold RoundtripGen.e_prim; eauto|apply (plain_nil var)]. }
+            apply (item_ok_inv c u ok n var y Hyn) in Hok. unfold ienode.
             pose proof (noq_occ var x y Hnx Hy) as Hny.
             destruct (wf_elem_inv var Hw) as [_ [_ [[k [Hty [Hcl Htf]]]|[[t [Hty [Hst Hcl]]]|[Hty [_ Htf3]]]]]].
             3:{ rewrite Htf3 in *. destruct (fits_item_qname c u ok _ var y Hty Hok) as [q1 [-> _]]. discriminate Hny. }
@@ -241,9 +260,11 @@ Section Plain.
           assert (Hitems : In e (map (ienode c u ign n var) (occ var x)) ->
                     (exists q a k, e = EElem q a k) /\ plain_tree e = true).
           { intros Hi. apply in_map_iff in Hi as [y [<- Hy]]. apply Hitem. exact Hy. }
-          destruct x; try destruct He;
-            (unfold RoundtripGen.e_wrap in He; destruct (v_wrapper_qname var) as [[|ch w]|];
-             [apply Hitems; exact He| |apply Hitems; exact He]).
+          assert (He' : In e (RoundtripGen.e_wrap var (map (ienode c u ign n var) (occ var x)))).
+          { destruct x; try exact He. destruct (v_nillable var); [exact He|destruct He]. }
+          clear He. rename He' into He.
+          unfold RoundtripGen.e_wrap in He; destruct (v_wrapper_qname var) as [[|ch w]|];
+             [apply Hitems; exact He| |apply Hitems; exact He].
           all: destruct He as [<-|[]]; split; [eauto|].
           all: cbn [plain_tree forallb map nodup_by andb].
           all: destruct (map (ienode c u ign n var) (occ var _)) as [|k1 r] eqn:Em; [reflexivity|].
